@@ -745,7 +745,14 @@ void run_raw(Ctx& c, const Case& k) {
             std::lock_guard<std::mutex> l(in_n.m);
             c.fail("C14:oversized-frame-delivered", "a frame announcing " + std::to_string(op.announced) + " bytes reached the handler (" + std::to_string(in_n.msgs.back().second.size()) + " B payload)");
         }
-        if (!ended) throw Inconclusive{"inconclusive_timeout"};
+        if (!ended) {
+            // the header alone (16 bytes) tells the receiver the frame is oversized: a session that is still open several
+            // seconds later is waiting for (buffering) the announced body.  Replayed twice by the driver before it is reported.
+            if (n.is_connected(rid))
+                c.fail("C14:oversized-length-does-not-end-session", "the session is still open " + std::string(op.header_only ? "4 s" : "15 s") + " after a frame header announcing " +
+                                                                     std::to_string(op.announced) + " bytes (limit 1 MiB): the receiver waits for the body instead of ending the session");
+            throw Inconclusive{"inconclusive_timeout"};
+        }
         if (n.is_connected(rid))
             c.fail("C14:oversized-frame-session-still-connected", "the node closed the socket after a frame announcing " + std::to_string(op.announced) + " bytes but is_connected() is still true");
         wire.run(c, raw, exp_wire, k.key, true);
